@@ -54,7 +54,7 @@ func (b *builder) variant(base gen.MsgSpec) (gen.MsgSpec, string) {
 	var what []string
 	ops := b.r.Range(1, 3)
 	for ; ops > 0; ops-- {
-		switch b.r.Intn(7) {
+		switch b.r.Intn(8) {
 		case 0: // insert other headers
 			for k := b.r.Range(1, 3); k > 0; k-- {
 				p := b.r.Intn(len(m.Hdrs) + 1)
@@ -141,6 +141,11 @@ func (b *builder) variant(base gen.MsgSpec) (gen.MsgSpec, string) {
 				}
 			}
 			what = append(what, "unfingerprinted-parts")
+		case 7: // a second via written into the FIRST Via header as a comma-separated list element
+			if i := m.FirstOf("via"); i >= 0 && !strings.Contains(m.Hdrs[i].Val, ",") {
+				m.Hdrs[i].Val += b.r.Pick([]string{",", ", ", " ,"}) + "SIP/2.0/UDP " + b.g.Host() + ";branch=z9hG4bK" + strconv.Itoa(b.r.Intn(1<<30)) + b.r.Pick([]string{"", ";rport", "-x.y_z"})
+				what = append(what, "via-list")
+			}
 		case 5: // whitespace / folding around values, other terminators
 			for i := range m.Hdrs {
 				h := &m.Hdrs[i]
